@@ -100,6 +100,7 @@ func (r *SimReader) Read(p []byte) (int, error) {
 type WriterSpec struct {
 	FailCall int    `json:"fail_call"` // index of the Write call that fails, -1 = none
 	Mode     string `json:"mode,omitempty"` // "zero" | "partial" | "afterfull"
+	OneShot  bool   `json:"one_shot,omitempty"` // later calls succeed again (otherwise the writer stays failed)
 }
 
 type SimWriter struct {
@@ -114,7 +115,7 @@ func NewSimWriter(spec WriterSpec) *SimWriter { return &SimWriter{spec: spec} }
 func (w *SimWriter) Write(p []byte) (int, error) {
 	c := w.Calls
 	w.Calls++
-	if w.Fired {
+	if w.Fired && !w.spec.OneShot {
 		return 0, ErrInjectedWrite // a failed writer stays failed
 	}
 	if w.spec.FailCall >= 0 && c == w.spec.FailCall {
